@@ -310,24 +310,30 @@ Definition seq_query (lk : link) (wh : option expr) (ta tb : bytes) (limit : opt
 (** ** Specification side *)
 
 (** WHERE read on a pair: a condition prefixed with type a speaks about the a-event, one prefixed
-    with type b about the b-event, an un-prefixed one about both, one prefixed with any other
-    type about neither. *)
-Fixpoint eval_pair (e : expr) (ta tb : bytes) (a b : event) : bool :=
+    with type b about the b-event, one prefixed with any other type about neither.  An un-prefixed
+    field that exactly one of the two schemas declares ([fa], [fb]: the declared fields) is addressed
+    to that type — this is what makes the query pass [validate_field_ambiguity]; any other
+    un-prefixed field (a core field such as [timestamp], or one nobody declares) speaks about both. *)
+Fixpoint eval_pair (fa fb : list bytes) (e : expr) (ta tb : bytes) (a b : event) : bool :=
   match e with
   | ECmp (Some p) f op c =>
       if bytes_eqb p ta then eval_row (ECmp None f op c) a
       else if bytes_eqb p tb then eval_row (ECmp None f op c) b
       else true
-  | ECmp None f op c => eval_row e a && eval_row e b
-  | EAnd l r => eval_pair l ta tb a b && eval_pair r ta tb a b
-  | EOr l r => eval_pair l ta tb a b || eval_pair r ta tb a b
-  | ENot x => negb (eval_pair x ta tb a b)
+  | ECmp None f op c =>
+      if mem_bytes f fa && negb (mem_bytes f fb) then eval_row e a
+      else if mem_bytes f fb && negb (mem_bytes f fa) then eval_row e b
+      else eval_row e a && eval_row e b
+  | EAnd l r => eval_pair fa fb l ta tb a b && eval_pair fa fb r ta tb a b
+  | EOr l r => eval_pair fa fb l ta tb a b || eval_pair fa fb r ta tb a b
+  | ENot x => negb (eval_pair fa fb x ta tb a b)
   end.
-Definition spec_where (wh : option expr) (ta tb : bytes) (a b : event) : bool :=
-  match wh with None => true | Some e => eval_pair e ta tb a b end.
+Definition spec_where (fa fb : list bytes) (wh : option expr) (ta tb : bytes) (a b : event) : bool :=
+  match wh with None => true | Some e => eval_pair fa fb e ta tb a b end.
 
 (** the fragment on which per-type filtering is exact: conjunctions of sub-expressions that each
-    speak about one side only; un-prefixed comparisons only as conjuncts *)
+    speak about one side only; un-prefixed comparisons only as conjuncts and only on fields that
+    both or neither schema declares *)
 Fixpoint one_sided (e : expr) (ty : bytes) : bool :=
   match e with
   | ECmp (Some p) _ _ _ => bytes_eqb p ty
@@ -335,14 +341,31 @@ Fixpoint one_sided (e : expr) (ty : bytes) : bool :=
   | EAnd l r | EOr l r => one_sided l ty && one_sided r ty
   | ENot x => one_sided x ty
   end.
-Fixpoint conjunctive (e : expr) (ta tb : bytes) : bool :=
+Definition declared_by_one (fa fb : list bytes) (f : bytes) : bool :=
+  xorb (mem_bytes f fa) (mem_bytes f fb).
+Fixpoint conjunctive (fa fb : list bytes) (e : expr) (ta tb : bytes) : bool :=
   match e with
-  | ECmp None _ _ _ => true
-  | EAnd l r => (conjunctive l ta tb && conjunctive r ta tb) || one_sided e ta || one_sided e tb
+  | ECmp None f _ _ => negb (declared_by_one fa fb f)
+  | EAnd l r => (conjunctive fa fb l ta tb && conjunctive fa fb r ta tb) || one_sided e ta || one_sided e tb
   | _ => one_sided e ta || one_sided e tb
   end.
-Definition conjunctive_where (wh : option expr) (ta tb : bytes) : bool :=
-  match wh with None => true | Some e => conjunctive e ta tb end.
+Definition conjunctive_where (fa fb : list bytes) (wh : option expr) (ta tb : bytes) : bool :=
+  match wh with None => true | Some e => conjunctive fa fb e ta tb end.
+
+(** KnownClass UnprefixedFieldAppliedToBothTypes: an un-prefixed comparison on a field only one of
+    the two types declares (it is applied to the rows of the other type as well, where the field is
+    missing, so every row of that type fails) *)
+Fixpoint has_unprefixed_one_sided (fa fb : list bytes) (e : expr) : bool :=
+  match e with
+  | ECmp None f _ _ => declared_by_one fa fb f
+  | ECmp (Some _) _ _ _ => false
+  | EAnd l r | EOr l r => has_unprefixed_one_sided fa fb l || has_unprefixed_one_sided fa fb r
+  | ENot x => has_unprefixed_one_sided fa fb x
+  end.
+
+(** the text the pipeline stores for a missing / null link cell ([scalar_to_string(Null)]): rows
+    without a link value are grouped under it (KnownClass AbsentLinkGroupedAsNull) *)
+Definition null_text : bytes := [110; 117; 108; 108].
 
 (** times that the u64 cast orders like the integers: present and non-negative *)
 Definition time_ok (e : event) : bool :=
